@@ -418,15 +418,20 @@ def merge_stats(total, st):
 
 # --------------------------------------------------------------------------- shrinking and deciding
 
-def still_bad(binp, ops):
-    """the reduced script still shows a disagreement / monitor failure / crash; returns the result or None"""
+def _still_bad(binp, ops, need="any"):
+    """the reduced script still shows (need='any') a disagreement / monitor failure / crash, or (need='property')
+    a monitor failure / crash on the implementation; returns the result or None"""
     if not ops or not ops[0].startswith("new "):
         return None
     r = check_script((binp, ops, "shrink"))
+    if need == "property":
+        return r if (r["monitor"] or r["crash"]) else None
     return r if (r["diff"] or r["monitor"] or r["crash"]) else None
 
 
-def shrink(binp, ops, budget_s=20):
+def shrink(binp, ops, budget_s=20, need="any"):
+    def still_bad(b, o):
+        return _still_bad(b, o, need)
     t0 = time.time()
     blocks = split_blocks(ops)
     # keep only the block that fails
@@ -502,7 +507,7 @@ def decide(binp, ctx, out, res, family, totals):
     """A script on which model and implementation differ, the monitor failed, or a sanitizer fired:
     shrink, then decide whether the PROPERTY fails on the implementation."""
     ops = res["ops"]
-    small, sres = shrink(binp, ops)
+    small, sres = shrink(binp, ops, need="property" if (res.get("monitor") or res.get("crash")) else "any")
     sres = sres or res
     script = "\n".join(small) + "\n"
     rc, impl, err = run_impl(binp, script)
@@ -542,7 +547,7 @@ def decide(binp, ctx, out, res, family, totals):
         r = check_script((binp, cand, "neigh"))
         merge_stats(totals, r["stats"])
         if r["monitor"] or r["crash"]:
-            cs, cr = shrink(binp, cand, budget_s=15)
+            cs, cr = shrink(binp, cand, budget_s=25, need="property")
             cr = cr or r
             rc2, impl2, err2 = run_impl(binp, "\n".join(cs) + "\n")
             replay2 = dict(replay, script=cs, impl_trace=impl2, model_trace=run_model("\n".join(cs) + "\n"),
@@ -810,11 +815,12 @@ def run(ctx, out):
         if rj:
             cov["samples"].append({"family": "random", "tag": rj[7][2], "script": rj[7][1][:25]})
 
-    # decisions
+    # decisions (smallest failing scripts first: their replays are the most readable)
     reported = set()
-    for family, res in bad[:4]:
+    bad.sort(key=lambda fr: len(fr[1].get("ops", ())))
+    for family, res in bad[:6]:
         key = (family, (res.get("monitor") or {}).get("clause"), bool(res.get("diff")))
-        if key in reported:
+        if key in reported or len(out.violations) >= 2:
             continue
         reported.add(key)
         decide(binp, ctx, out, res, family, totals)
